@@ -460,7 +460,7 @@ def run(ctx):
             elif r < .88:
                 i = ctx.rng.randrange(len(regs))
                 ex = [e for e in markers.EXTRAS if ctx.rng.random() < .3]
-                exn = [sess.ask(['name', S(e)])[5][1] for e in ex]
+                exn = [S(markers.pep_norm(e)) for e in ex]
                 reg, _ = sess.op('simpx', regs[i], [S(e) for e in ex])
                 if reg is None:
                     break
@@ -492,7 +492,7 @@ def run(ctx):
                 continue
             rels = [[keys.spelling[k][1], [str(x) for x in pep440.release_of(env[k])]] for k in markers.VERSION_KEYS]
             ss = [[idx, S(env[field])] for idx, field in keys.str.items()]
-            exn = [unS(sess.ask(['name', S(e)])[5][1]) for e in ex]
+            exn = [markers.pep_norm(e) for e in ex]
             row = []
             for rg in regs:
                 g = c02.eval_all(sess, rg, env, ex)
